@@ -167,6 +167,8 @@ class Evaluator:
             if tname == "Option" or path.endswith("Option::Some") or path.endswith("Option::None"):
                 return ("opt", fields.get("0")) if var == "Some" else ("opt", None)
             return ("struct", tname if tname != var else var, fields)
+        if k == "aggx" and e[1] == "array":
+            return ("array", [self.ev(x, args, depth) for x in e[2]])
         if k == "upd":
             base = self.ev(e[1], args, depth)
             if isinstance(base, tuple) and base[0] == "struct":
@@ -411,7 +413,7 @@ class Evaluator:
             v, i = argv()
             if isinstance(v, tuple) and v[0] == "bytes" and isinstance(i, int):
                 return ("opt", v[1][i] if 0 <= i < len(v[1]) else None)
-        if short in ("map_or", "map", "is_some_and", "and_then", "unwrap_or", "map_or_else") and "Option" in name:
+        if short in ("map_or", "map", "is_some_and", "and_then", "unwrap_or", "map_or_else", "filter") and "Option" in name:
             v = self.ev(e[2][0], args, depth)
             if isinstance(v, tuple) and v[0] == "opt":
                 def apply(clo, x):
@@ -431,6 +433,8 @@ class Evaluator:
                     return 0 if v[1] is None else apply(e[2][1], v[1])
                 if short == "and_then":
                     return ("opt", None) if v[1] is None else apply(e[2][1], v[1])
+                if short == "filter":
+                    return v if v[1] is not None and apply(e[2][1], v[1]) else ("opt", None)
                 if short == "unwrap_or":
                     return self.ev(e[2][1], args, depth) if v[1] is None else v[1]
         if short in ("is_none", "is_some") and "Option" in name:
@@ -474,6 +478,8 @@ class Evaluator:
         def pat(v):
             if isinstance(v, int):
                 return chr(v)
+            if isinstance(v, tuple) and v[0] == "array" and v[1] and all(isinstance(x, int) for x in v[1]):
+                return tuple(chr(x) for x in v[1])       # [char; N] pattern: any of the characters
             if isinstance(v, tuple) and v[0] == "str":
                 return v[1]
             raise Unknown("string pattern %r" % (v,))
@@ -485,6 +491,10 @@ class Evaluator:
             return int(not txt)
         if short == "is_ascii":
             return int(all(ord(c) < 128 for c in txt))
+        if short in ("strip_prefix", "strip_suffix") and isinstance(pat(vals[1]), tuple):
+            alts = pat(vals[1])
+            hit = txt and (txt[0] if short == "strip_prefix" else txt[-1]) in alts
+            return ("opt", ("str", txt[1:] if short == "strip_prefix" else txt[:-1])) if hit else ("opt", None)
         if short == "strip_prefix":
             p_ = pat(vals[1])
             return ("opt", ("str", txt[len(p_):])) if txt.startswith(p_) else ("opt", None)
